@@ -491,3 +491,839 @@ def gen_paths():
             out.append("def %s_d %s : %s := %s %s\n" % (name, " ".join("(%s : %s)" % (p, lty[t]) for p, t in req), lty[rty], name, " ".join(args)))
     out.append("end MetadorModel.Gen.Paths\n")
     return "\n".join(out)
+
+
+# --------------------------------------------------------------------------- wrapper method table
+PATHY_PARAMS = {"name", "path", "source", "dest", "src", "dst"}
+LISTING_METHODS = {"items", "values", "keys", "__iter__", "__len__", "__reversed__", "visit", "visititems"}
+MAPPING_DUNDERS = ["__getitem__", "__setitem__", "__delitem__", "__contains__", "__iter__", "__len__", "__reversed__"]
+WRAPPER_CLASSES = ["MetadorNode", "MetadorDataset", "MetadorGroup", "MetadorContainer"]
+
+
+def _is_wrapped_attr(e, selfname):
+    """`self.__wrapped__`"""
+    return isinstance(e, ast.Attribute) and e.attr == "__wrapped__" and isinstance(e.value, ast.Name) and e.value.id == selfname
+
+
+def _self_call(e, selfname, names):
+    """`self.<m>(...)` with m in names -> m"""
+    if isinstance(e, ast.Call) and isinstance(e.func, ast.Attribute) and isinstance(e.func.value, ast.Name) and e.func.value.id == selfname and e.func.attr in names:
+        return e.func.attr
+    return None
+
+
+class MethodScan:
+    """Linear scan of a method body (source order, branches flattened, conditions remembered).
+
+    Events: ("guard_path", var, cond) ("guard_acl", flag, cond) ("raw", what, [arg exprs], cond)
+            ("assign", var, expr, cond) ("wrap",) ("filter",) ("delegate", method, [arg exprs])
+            ("wrapcall", rawmethod, ro_flag, [arg exprs])   # _wrap_method("x", ...)(self, a, ...)
+    cond = tuple of (kind, var) for enclosing `if isinstance(var, str)` tests, or ("other", None)."""
+
+    def __init__(self, selfname, local_funcs=()):
+        self.s = selfname
+        self.events = []
+        self.local_funcs = set(local_funcs)
+        self.returns_raw_attr = False
+
+    def scan_body(self, body, cond=()):
+        for st in body:
+            self.scan_stmt(st, cond)
+
+    def scan_stmt(self, st, cond):
+        if isinstance(st, ast.FunctionDef):
+            self.local_funcs.add(st.name)
+            inner = MethodScan(self.s, self.local_funcs)
+            inner.scan_body(st.body, cond + (("callback", st.name),))
+            self.events += inner.events
+            return
+        if isinstance(st, ast.If):
+            self.scan_expr(st.test, cond)
+            c = ("other", None)
+            t = st.test
+            if isinstance(t, ast.Call) and isinstance(t.func, ast.Name) and t.func.id == "isinstance" and len(t.args) == 2 and isinstance(t.args[0], ast.Name):
+                if isinstance(t.args[1], ast.Name) and t.args[1].id == "str":
+                    c = ("isstr", t.args[0].id)
+            if isinstance(t, ast.UnaryOp) and isinstance(t.op, ast.Not) and isinstance(t.operand, ast.Name):
+                c = ("notflag", t.operand.id)
+            self.scan_body(st.body, cond + (c,))
+            self.scan_body(st.orelse, cond + (("other", None),))
+            return
+        if isinstance(st, (ast.For, ast.While, ast.With, ast.Try)):
+            for f in ("iter", "test"):
+                if hasattr(st, f):
+                    self.scan_expr(getattr(st, f), cond)
+            for f in ("items",):
+                for it in getattr(st, f, []):
+                    self.scan_expr(it.context_expr, cond)
+            c2 = cond + (("other", None),)
+            for f in ("body", "orelse", "finalbody"):
+                self.scan_body(getattr(st, f, []) or [], c2)
+            for h in getattr(st, "handlers", []) or []:
+                self.scan_body(h.body, c2)
+            return
+        if isinstance(st, (ast.Assign, ast.AnnAssign)):
+            val = st.value
+            tg = st.targets[0] if isinstance(st, ast.Assign) else st.target
+            if val is not None:
+                self.scan_expr(val, cond)
+                if isinstance(tg, ast.Name):
+                    self.events.append(("assign", tg.id, val, cond))
+                elif isinstance(tg, ast.Subscript):
+                    self.scan_expr(tg, cond, store=True)
+            return
+        if isinstance(st, ast.Delete):
+            for t in st.targets:
+                self.scan_expr(t, cond, store=True)
+            return
+        if isinstance(st, ast.Return):
+            if st.value is not None:
+                self.scan_expr(st.value, cond)
+            return
+        if isinstance(st, ast.Expr):
+            self.scan_expr(st.value, cond)
+            return
+        if isinstance(st, (ast.Raise, ast.Assert)):
+            for f in ("exc", "test", "msg"):
+                v = getattr(st, f, None)
+                if v is not None:
+                    self.scan_expr(v, cond)
+            return
+        if isinstance(st, (ast.Pass, ast.Continue, ast.Break)):
+            return
+        raise TranslateError("method scan: unsupported statement %s" % type(st).__name__)
+
+    def scan_expr(self, e, cond, store=False):
+        """post-order over sub-expressions, emitting events in evaluation order (approximately)."""
+        if e is None:
+            return
+        s = self.s
+        # self._guard_path(x)
+        if _self_call(e, s, {"_guard_path"}) and len(e.args) == 1:
+            a = e.args[0]
+            self.events.append(("guard_path", a.id if isinstance(a, ast.Name) else None, cond))
+            return
+        if _self_call(e, s, {"_guard_acl"}) and e.args:
+            a = e.args[0]
+            flag = a.attr if isinstance(a, ast.Attribute) else None
+            self.events.append(("guard_acl", flag, cond))
+            return
+        if _self_call(e, s, {"_wrap_if_node"}):
+            for a in e.args:
+                self.scan_expr(a, cond)
+            self.events.append(("wrap",))
+            return
+        # M.is_internal_path(...)
+        if isinstance(e, ast.Call) and isinstance(e.func, ast.Attribute) and e.func.attr == "is_internal_path":
+            self.events.append(("filter",))
+            return
+        # _wrap_method("x", ...)(self, a, b)
+        if isinstance(e, ast.Call) and isinstance(e.func, ast.Call) and isinstance(e.func.func, ast.Name) and e.func.func.id == "_wrap_method":
+            inner = e.func
+            raw_m = inner.args[0].value if inner.args and isinstance(inner.args[0], ast.Constant) else None
+            ro = False
+            for kw in inner.keywords:
+                if kw.arg == "is_read_only_method" and isinstance(kw.value, ast.Constant):
+                    ro = bool(kw.value.value)
+            if len(inner.args) > 1 and isinstance(inner.args[1], ast.Constant):
+                ro = bool(inner.args[1].value)
+            self.events.append(("wrapcall", raw_m, ro, list(e.args[1:]), cond))
+            return
+        # getattr(self.__wrapped__, m)(args)
+        if isinstance(e, ast.Call) and isinstance(e.func, ast.Call) and isinstance(e.func.func, ast.Name) and e.func.func.id == "getattr" and e.func.args and _is_wrapped_attr(e.func.args[0], s):
+            self.events.append(("raw", "getattr-call", list(e.args), cond))
+            return
+        # self.__wrapped__.m(args)
+        if isinstance(e, ast.Call) and isinstance(e.func, ast.Attribute) and _is_wrapped_attr(e.func.value, s):
+            for a in e.args:
+                self.scan_expr(a, cond)
+            self.events.append(("raw", e.func.attr, list(e.args), cond))
+            return
+        # self.__wrapped__[x]
+        if isinstance(e, ast.Subscript) and _is_wrapped_attr(e.value, s):
+            self.events.append(("raw", "[]", [e.slice], cond))
+            return
+        # x in self.__wrapped__
+        if isinstance(e, ast.Compare) and len(e.ops) == 1 and isinstance(e.ops[0], (ast.In, ast.NotIn)) and _is_wrapped_attr(e.comparators[0], s):
+            self.events.append(("raw", "in", [e.left], cond))
+            return
+        # self.__wrapped__.attr / getattr(self.__wrapped__, key)
+        if isinstance(e, ast.Attribute) and _is_wrapped_attr(e.value, s):
+            self.events.append(("raw", "." + e.attr, [], cond))
+            return
+        if isinstance(e, ast.Call) and isinstance(e.func, ast.Name) and e.func.id in ("getattr", "hasattr") and e.args and _is_wrapped_attr(e.args[0], s):
+            self.events.append(("raw", e.func.id, [], cond))
+            return
+        if _is_wrapped_attr(e, s):
+            self.events.append(("raw", "object", [], cond))
+            return
+        # delegation to guarded methods of self
+        if isinstance(e, ast.Subscript) and isinstance(e.value, ast.Name) and e.value.id == s:
+            self.events.append(("delegate", "__delitem__" if store and isinstance(e.ctx, ast.Del) else ("__setitem__" if store else "__getitem__"), [e.slice], cond))
+            return
+        if isinstance(e, ast.Call) and isinstance(e.func, ast.Attribute) and isinstance(e.func.value, ast.Name) and e.func.value.id == s:
+            for a in e.args:
+                self.scan_expr(a, cond)
+            self.events.append(("delegate", e.func.attr, list(e.args), cond))
+            return
+        if isinstance(e, ast.Compare) and len(e.ops) == 1 and isinstance(e.ops[0], ast.In) and isinstance(e.comparators[0], ast.Name) and e.comparators[0].id == s:
+            self.events.append(("delegate", "__contains__", [e.left], cond))
+            return
+        if isinstance(e, ast.Lambda):
+            self.scan_expr(e.body, cond + (("callback", "<lambda>"),))
+            return
+        for ch in ast.iter_child_nodes(e):
+            if isinstance(ch, ast.expr):
+                self.scan_expr(ch, cond)
+            elif isinstance(ch, ast.comprehension):
+                self.scan_expr(ch.iter, cond)
+                for i in ch.ifs:
+                    self.scan_expr(i, cond)
+            elif isinstance(ch, ast.keyword):
+                self.scan_expr(ch.value, cond)
+
+
+def _unconditional(cond):
+    return all(k == "callback" for k, _ in cond) if cond else True
+
+
+def analyse_method(cls, name, params, events, local_funcs, selfname):
+    """Derive the table entry from the scanned events."""
+    first_raw = next((i for i, ev in enumerate(events) if ev[0] in ("raw", "wrapcall")), None)
+    # expand wrapcall: guard_path(arg0) ; [guard_acl] ; raw(arg0 ...) ; wrap
+    ex = []
+    for ev in events:
+        if ev[0] == "wrapcall":
+            _, raw_m, ro, args, cond = ev
+            a0 = args[0] if args else None
+            ex.append(("guard_path", a0.id if isinstance(a0, ast.Name) else None, cond))
+            if not ro:
+                ex.append(("guard_acl", "read_only", cond))
+            ex.append(("raw", raw_m, args[:1], cond))
+            ex.append(("wrap",))
+        else:
+            ex.append(ev)
+    events = ex
+    assigns = {}
+    for i, ev in enumerate(events):
+        if ev[0] == "assign":
+            assigns.setdefault(ev[1], []).append((i, ev[2], ev[3]))
+
+    def guard_index(var, before, cond_of_use):
+        """index of a guard on var that covers a use at position `before`."""
+        last_assign = max([i for i, _, _ in assigns.get(var, []) if i < before], default=-1)
+        for i, ev in enumerate(events[:before]):
+            if ev[0] == "guard_path" and ev[1] == var and i > last_assign:
+                c = ev[2]
+                if _unconditional(c):
+                    return i
+                # guard under `if isinstance(var, str)`: covers the string case of var
+                if all(k == "callback" or (k == "isstr" and v == var) for k, v in c):
+                    return i
+        return None
+
+    def classify(e, at, cond, depth=0):
+        if isinstance(e, ast.Constant) or e is None:
+            return "const"
+        if isinstance(e, ast.Starred):
+            return "rest"
+        if isinstance(e, ast.Name):
+            v = e.id
+            if v in local_funcs:
+                return "callback"
+            if guard_index(v, at, cond) is not None:
+                return "guarded"
+            defs = [(i, x, c) for i, x, c in assigns.get(v, []) if i < at]
+            if not defs or depth > 6:
+                return "unguarded" if v in params or not defs else "unguarded"
+            cls_ = [classify(x, i, c, depth + 1) for i, x, c in defs]
+            if all(c in ("guarded", "internal", "node", "const") for c in cls_):
+                return "internal" if "internal" in cls_ else ("node" if "node" in cls_ else "guarded")
+            return "unguarded"
+        if isinstance(e, ast.IfExp):
+            cs = [classify(e.body, at, cond, depth + 1), classify(e.orelse, at, cond, depth + 1)]
+            if all(c in ("guarded", "internal", "node", "const") for c in cs):
+                return "internal" if "internal" in cs else ("node" if "node" in cs else "guarded")
+            return "unguarded"
+        if isinstance(e, ast.Attribute):
+            if e.attr == "_base_dir":
+                return "internal"
+            if e.attr == "__wrapped__":
+                return "node"  # raw object behind a wrapper object, not a path
+            if e.attr == "name" and isinstance(e.value, ast.Name):
+                # name of a node obtained through a guarded lookup of self
+                ds = assigns.get(e.value.id, [])
+                if ds and all(isinstance(x, ast.Subscript) and isinstance(x.value, ast.Name) and x.value.id == selfname for _, x, _ in ds):
+                    return "node"
+            if isinstance(e.value, ast.Name) and e.value.id == "M":
+                return "internal"
+        return "unguarded"
+
+    raw_uses = []
+    touches = False
+    for i, ev in enumerate(events):
+        if ev[0] == "raw":
+            touches = True
+            for a in ev[2]:
+                c = classify(a, i, ev[3])
+                if c in ("const", "rest"):
+                    continue
+                nm = a.id if isinstance(a, ast.Name) else ast.unparse(a)[:40]
+                raw_uses.append((nm, c))
+    guarded_vars = []
+    for ev in events:
+        if ev[0] == "guard_path" and ev[1] and ev[1] not in guarded_vars:
+            guarded_vars.append(ev[1])
+    user_paths = list(guarded_vars)
+    for nm, c in raw_uses:
+        if c == "unguarded" and nm not in user_paths:
+            user_paths.append(nm)
+    guarded_ok = []
+    first_raw = next((i for i, ev in enumerate(events) if ev[0] == "raw"), len(events))
+    for v in user_paths:
+        uses = [i for i, ev in enumerate(events) if ev[0] == "raw" and any(isinstance(a, ast.Name) and a.id == v for a in ev[2])]
+        at = min(uses) if uses else first_raw
+        if guard_index(v, at, ()) is not None and not any(nm == v and c == "unguarded" for nm, c in raw_uses):
+            guarded_ok.append(v)
+    # guard sequence before the first raw access
+    seq = []
+    for ev in events[:first_raw]:
+        if ev[0] == "guard_path" and ev[1] in user_paths:
+            g = "path:%d" % user_paths.index(ev[1])
+            if g not in seq:
+                seq.append(g)
+        if ev[0] == "guard_acl" and ev[1] == "read_only" and _unconditional(ev[2]) and "ro" not in seq:
+            seq.append("ro")
+    ro_guard = "ro" in seq
+    # only guards that really cover (see guarded_ok) count in the shape
+    seq = [g for g in seq if g == "ro" or user_paths[int(g[5:])] in guarded_ok]
+    # path-named parameters must be covered
+    uncovered = []
+    for p in params:
+        if p not in PATHY_PARAMS:
+            continue
+        if p in guarded_ok:
+            continue
+        flows = any(isinstance(x, ast.Name) and x.id == p and v in guarded_ok for v, ds in assigns.items() for _, x, _ in ds)
+        used_raw = any(nm == p for nm, _ in raw_uses)
+        only_delegated = not used_raw and any(ev[0] == "delegate" and any(isinstance(a, ast.Name) and a.id == p for a in ev[2]) for ev in events)
+        mentioned = used_raw or flows or only_delegated or any(ev[0] == "guard_path" and ev[1] == p for ev in events)
+        if used_raw or not (flows or only_delegated or not mentioned):
+            uncovered.append(p)
+    delegates = [ev[1] for ev in events if ev[0] == "delegate"]
+    filters = any(ev[0] == "filter" for ev in events)
+    return dict(
+        cls=cls, name=name, params=list(params), userPaths=user_paths, guarded=guarded_ok, uncoveredParams=uncovered,
+        rawUses=raw_uses, touchesRaw=touches, roGuard=ro_guard, wraps=any(ev[0] == "wrap" for ev in events),
+        listing=name in LISTING_METHODS, filters=filters, delegates=delegates, guardSeq=seq,
+        pathParams=[p for p in params if p in PATHY_PARAMS],
+    )
+
+
+def _fn_params(fn):
+    a = fn.args
+    ps = [x.arg for x in a.args[1:]]
+    if a.vararg:
+        ps.append("*" + a.vararg.arg)
+    ps += [x.arg for x in a.kwonlyargs]
+    if a.kwarg:
+        ps.append("**" + a.kwarg.arg)
+    return ps
+
+
+def group_method_table():
+    """Method table of the wrapper classes of container/wrappers.py (ast) + pass-through
+    dunder methods of wrapt.ObjectProxy that MetadorGroup does not override (inspect)."""
+    tree = parse_source("src/metador_core/container/wrappers.py")
+    classes = {c.name: c for c in tree.body if isinstance(c, ast.ClassDef)}
+    for c in WRAPPER_CLASSES:
+        if c not in classes:
+            raise TranslateError("class %s not found" % c)
+    # the _wrap_method factory
+    wm = find_func(tree, "_wrap_method")
+    inner = [n for n in wm.body if isinstance(n, ast.FunctionDef)]
+    if len(inner) != 1:
+        raise TranslateError("_wrap_method: expected one inner function")
+    inner = inner[0]
+    wm_self = inner.args.args[0].arg
+    wm_scan = MethodScan(wm_self)
+    wm_scan.scan_body(strip_doc(inner.body))
+    methods = []
+    getattr_info = {}
+    supported = []
+    for cname in WRAPPER_CLASSES:
+        c = classes[cname]
+        for n in c.body:
+            if isinstance(n, ast.FunctionDef):
+                is_prop = any(isinstance(d, ast.Name) and d.id == "property" for d in n.decorator_list)
+                if n.name.startswith("_") and not (n.name.startswith("__") and n.name.endswith("__")):
+                    continue  # private helpers
+                if n.name in ("__init__", "__dir__", "__repr__"):
+                    continue
+                if any(isinstance(d, ast.Name) and d.id == "staticmethod" for d in n.decorator_list):
+                    continue
+                selfname = n.args.args[0].arg
+                sc = MethodScan(selfname)
+                sc.scan_body(strip_doc(n.body))
+                m = analyse_method(cname, n.name, _fn_params(n), sc.events, sc.local_funcs, selfname)
+                m["property"] = is_prop
+                methods.append(m)
+                if n.name == "__getattr__":
+                    rets = [x for x in ast.walk(n) if isinstance(x, ast.Return)]
+                    getattr_info[cname] = dict(
+                        returns=len(rets),
+                        raw_returns=sum(1 for r in rets if r.value is not None and any(_is_wrapped_attr(x, selfname) for x in ast.walk(r.value))),
+                        super_returns=sum(1 for r in rets if r.value is not None and any(isinstance(x, ast.Name) and x.id == "super" for x in ast.walk(r.value))),
+                    )
+            elif isinstance(n, ast.Assign) and len(n.targets) == 1 and isinstance(n.targets[0], ast.Name):
+                v = n.value
+                if isinstance(v, ast.Call) and isinstance(v.func, ast.Name) and v.func.id == "_wrap_method":
+                    ro = False
+                    for kw in v.keywords:
+                        if kw.arg == "is_read_only_method" and isinstance(kw.value, ast.Constant):
+                            ro = bool(kw.value.value)
+                    if len(v.args) > 1 and isinstance(v.args[1], ast.Constant):
+                        ro = bool(v.args[1].value)
+                    # instantiate the factory body: drop the ro guard when is_read_only_method
+                    evs = []
+                    for ev in wm_scan.events:
+                        if ev[0] == "guard_acl" and any(k == "notflag" for k, _ in ev[2]):
+                            if ro:
+                                continue
+                            ev = ("guard_acl", ev[1], ())
+                        evs.append(ev)
+                    m = analyse_method(cname, n.targets[0].id, _fn_params(inner), evs, set(), wm_self)
+                    m["property"] = False
+                    m["rawMethod"] = v.args[0].value if v.args and isinstance(v.args[0], ast.Constant) else None
+                    methods.append(m)
+                elif n.targets[0].id == "_self_SUPPORTED" and isinstance(v, (ast.Set, ast.List, ast.Tuple)):
+                    supported = sorted(x.value for x in v.elts if isinstance(x, ast.Constant))
+            elif isinstance(n, ast.AnnAssign) and isinstance(n.target, ast.Name) and n.target.id == "_self_SUPPORTED" and isinstance(n.value, (ast.Set, ast.List, ast.Tuple)):
+                supported = sorted(x.value for x in n.value.elts if isinstance(x, ast.Constant))
+    # protocol (util/types.py)
+    ttree = parse_source("src/metador_core/util/types.py")
+    proto = {}
+    for cname in ("H5NodeLike", "H5DatasetLike", "H5GroupLike", "H5FileLike"):
+        c = find_class(ttree, cname)
+        proto[cname] = [(n.name, _fn_params(n)) for n in c.body if isinstance(n, ast.FunctionDef)]
+    group_defined = {m["name"] for m in methods if m["cls"] in ("MetadorNode", "MetadorGroup")}
+    # ObjectProxy pass-through dunders not overridden by MetadorNode/MetadorGroup
+    import wrapt
+    passthrough = sorted(d for d in MAPPING_DUNDERS if d in vars(wrapt.ObjectProxy) and d not in group_defined)
+    gi = getattr_info.get("MetadorGroup")
+    group_refuses = bool(gi) and gi["returns"] == 0
+    ci = getattr_info.get("MetadorContainer")
+    container_only_supported = (ci is None) or (ci["raw_returns"] <= 1 and ci["returns"] == ci["raw_returns"] + ci["super_returns"])
+    return dict(methods=methods, protocol=proto, passthrough=passthrough, groupGetattrRefuses=group_refuses,
+                containerSupported=supported, containerGetattrWhitelisted=bool(container_only_supported))
+
+
+def _ls(l):
+    return "[" + ", ".join('"%s"' % x for x in l) + "]"
+
+
+def gen_group_methods():
+    t = group_method_table()
+    out = [
+        "import MetadorModel.Model.Paths",
+        "/-! GENERATED on every run by harness/translate.py from",
+        "    src/metador_core/container/wrappers.py and util/types.py (ast) and wrapt.ObjectProxy (inspect).",
+        "    Do not edit. -/",
+        "namespace MetadorModel.Gen",
+        "open MetadorModel.Paths",
+        "",
+        "def groupMethods : List GMethod := [",
+    ]
+    rows = []
+    for m in t["methods"]:
+        if m["cls"] == "MetadorDataset":
+            continue
+        guards = ", ".join(".readOnly" if g == "ro" else ".path %s" % g[5:] for g in m["guardSeq"])
+        n = len(m["userPaths"])
+        rows.append(
+            "  { cls := \"%s\", name := \"%s\", params := %s, userPaths := %s, guarded := %s, uncoveredParams := %s,\n"
+            "    rawUses := [%s], touchesRaw := %s, wraps := %s, listing := %s, filters := %s, delegates := %s,\n"
+            "    shape := { name := \"%s\", nargs := %d, pathArgs := %s, guards := [%s] } }" % (
+                m["cls"], m["name"], _ls(m["params"]), _ls(m["userPaths"]), _ls(m["guarded"]), _ls(m["uncoveredParams"]),
+                ", ".join('("%s", "%s")' % (a.replace('"', "'"), c) for a, c in m["rawUses"]),
+                "true" if m["touchesRaw"] else "false", "true" if m["wraps"] else "false", "true" if m["listing"] else "false",
+                "true" if m["filters"] else "false", _ls(sorted(set(m["delegates"]))),
+                m["name"], n, "[" + ", ".join(str(i) for i in range(n)) + "]", guards))
+    out.append(",\n".join(rows))
+    out.append("]\n")
+    pm = []
+    for cname in ("H5GroupLike",):
+        for name, params in t["protocol"][cname]:
+            pm.append((name, [p for p in params if p in PATHY_PARAMS]))
+    out.append("/-- methods of the `H5GroupLike` protocol (util/types.py) with their path-named parameters -/")
+    out.append("def protocolMethods : List (String × List String) := [%s]\n" % ", ".join('("%s", %s)' % (n, _ls(p)) for n, p in pm))
+    out.append("/-- mapping-protocol dunder methods that `wrapt.ObjectProxy` forwards to `__wrapped__` and\n    neither `MetadorNode` nor `MetadorGroup` overrides -/")
+    out.append("def passthrough : List String := %s\n" % _ls(t["passthrough"]))
+    out.append("/-- `MetadorGroup.__getattr__` has no `return`: every unknown attribute raises -/")
+    out.append("def groupGetattrRefuses : Bool := %s\n" % ("true" if t["groupGetattrRefuses"] else "false"))
+    out.append("/-- `MetadorContainer.__getattr__` forwards exactly the names in `_self_SUPPORTED` -/")
+    out.append("def containerGetattrWhitelisted : Bool := %s" % ("true" if t["containerGetattrWhitelisted"] else "false"))
+    out.append("def containerSupported : List String := %s\n" % _ls(t["containerSupported"]))
+    out.append("end MetadorModel.Gen\n")
+    return "\n".join(out)
+
+
+# --------------------------------------------------------------------------- ACL table (C15)
+_FLAG = {"read_only": ".ro", "local_only": ".loc", "skel_only": ".skel"}
+
+
+def _acl_flag_of(e, owner=("acl", "_self_acl")):
+    """`self.acl[NodeAcl.X]` / `self._self_acl[NodeAcl.X]` -> X"""
+    if isinstance(e, ast.Subscript) and isinstance(e.value, ast.Attribute) and e.value.attr in owner and isinstance(e.slice, ast.Attribute):
+        return e.slice.attr
+    return None
+
+
+def _guard_acl_calls(fn, receiver_attr=None):
+    """[(flag, stmt_index, conditional?)] for `<self>[.<receiver_attr>]._guard_acl(NodeAcl.X, …)`
+    in the top-level statements of fn (after the docstring)."""
+    out = []
+    body = strip_doc(fn.body)
+    for i, st in enumerate(body):
+        for n in ast.walk(st):
+            if isinstance(n, ast.Call) and isinstance(n.func, ast.Attribute) and n.func.attr == "_guard_acl" and n.args and isinstance(n.args[0], ast.Attribute):
+                recv = n.func.value
+                ok = isinstance(recv, ast.Name) if receiver_attr is None else (isinstance(recv, ast.Attribute) and recv.attr == receiver_attr)
+                if ok:
+                    # condition: top-level statement itself, or inside `if self.acl[NodeAcl.X]:` for the same X
+                    cond = None
+                    if isinstance(st, ast.If):
+                        cond = _acl_flag_of(st.test)
+                    direct = isinstance(st, ast.Expr) and st.value is n
+                    out.append((n.args[0].attr, i, direct or cond == n.args[0].attr))
+    return out
+
+
+def find_last_func(node, name):
+    """last definition wins (earlier ones may be @overload stubs)"""
+    fs = [n for n in node.body if isinstance(n, ast.FunctionDef) and n.name == name]
+    if not fs:
+        raise TranslateError("function %s not found" % name)
+    return fs[-1]
+
+
+def acl_table():
+    wtree = parse_source("src/metador_core/container/wrappers.py")
+    itree = parse_source("src/metador_core/container/interface.py")
+    gm = group_method_table()
+    by = {}
+    for m in gm["methods"]:
+        by.setdefault(m["name"], m)
+        if m["cls"] == "MetadorGroup":
+            by[m["name"]] = m
+    node = find_class(wtree, "MetadorNode")
+    dset = find_class(wtree, "MetadorDataset")
+    wam = find_class(wtree, "WrappedAttributeManager")
+    meta = find_class(itree, "MetadorMeta")
+    toc = find_class(itree, "MetadorContainerTOC")
+
+    # 1. which navigation methods wrap their results
+    def wraps_of(name, depth=0):
+        m = by.get(name)
+        if m is None or depth > 4:
+            return False
+        if m["wraps"]:
+            return True
+        ds = [d for d in m["delegates"] if d in LISTING_METHODS]
+        return bool(ds) and not m["touchesRaw"] and all(wraps_of(d, depth + 1) for d in ds)
+    wraps = [(n, wraps_of(n)) for n in ["__getitem__", "get", "items", "values", "keys", "__iter__", "visititems",
+                                        "require_group", "require_dataset", "create_group", "create_dataset"]]
+    q = find_func(toc, "query")
+    q_src = ast.unparse(q)
+    q_wraps = ".visititems(" in q_src and "_raw" not in q_src and "__wrapped__" not in q_src
+    wraps.append(("query", q_wraps))
+    # parent
+    par = find_func(node, "parent")
+    rets = [n for n in ast.walk(par) if isinstance(n, ast.Return) and n.value is not None]
+    parent_wraps = bool(rets)
+    parent_mode = ".lpAsIs"
+    for r in rets:
+        v = r.value
+        if isinstance(v, ast.Name):  # `return lp`
+            parent_wraps = parent_wraps and True
+            parent_mode = ".lpAsIs"
+            continue
+        if not (isinstance(v, ast.Call) and isinstance(v.func, ast.Name) and v.func.id == "MetadorGroup"):
+            parent_wraps = False
+            continue
+        star = [k.value for k in v.keywords if k.arg is None]
+        if len(star) != 1:
+            parent_wraps = False
+            continue
+        sv = star[0]
+        if isinstance(sv, ast.Name):  # `flags = {…}` … `**flags`
+            defs = [a.value for a in ast.walk(par) if isinstance(a, ast.Assign) and len(a.targets) == 1 and isinstance(a.targets[0], ast.Name) and a.targets[0].id == sv.id]
+            if len(defs) == 1:
+                sv = defs[0]
+        if isinstance(sv, ast.Call) and isinstance(sv.func, ast.Attribute) and sv.func.attr == "_child_node_kwargs":
+            continue
+        if isinstance(sv, ast.DictComp) and len(sv.generators) == 1 and sv.generators[0].ifs:
+            cond = sv.generators[0].ifs[0]
+            src = ast.unparse(cond)
+            if isinstance(cond, ast.BoolOp) and isinstance(cond.op, ast.Or) and "lp.acl[" in src and "self.acl[" in src and isinstance(sv.value, ast.Constant) and sv.value.value is True:
+                parent_mode = ".lpUnion"
+                continue
+        parent_wraps = False
+    if any(isinstance(r.value, ast.Name) for r in rets):
+        parent_mode = ".lpAsIs"
+    wraps.append(("parent", parent_wraps))
+
+    # 2. _child_node_kwargs passes on all set flags and remembers self iff local_only
+    ck = find_func(node, "_child_node_kwargs")
+    inherit_all = False
+    body = strip_doc(ck.body)
+    if len(body) == 1 and isinstance(body[0], ast.Return) and isinstance(body[0].value, ast.Dict):
+        d = body[0].value
+        has_lp = has_flags = False
+        for k, v in zip(d.keys, d.values):
+            if isinstance(k, ast.Constant) and k.value == "local_parent":
+                has_lp = isinstance(v, ast.IfExp) and isinstance(v.body, ast.Name) and v.body.id == "self" and _acl_flag_of(v.test) == "local_only" and isinstance(v.orelse, ast.Constant) and v.orelse.value is None
+            if k is None and isinstance(v, ast.DictComp):
+                g = v.generators[0]
+                src_iter = ast.unparse(g.iter)
+                has_flags = src_iter == "self.acl.items()" and len(g.ifs) == 1 and isinstance(g.ifs[0], ast.Name) and ast.unparse(v.key).endswith(".name") and isinstance(v.value, ast.Name) and v.value.id == g.ifs[0].id
+        inherit_all = has_lp and has_flags
+    # _wrap_if_node hands these kwargs to both wrapper classes
+    wi = find_func(node, "_wrap_if_node")
+    calls = [n for n in ast.walk(wi) if isinstance(n, ast.Call) and isinstance(n.func, ast.Name) and n.func.id in ("MetadorGroup", "MetadorDataset")]
+    wi_ok = len(calls) == 2 and all(any(k.arg is None and isinstance(k.value, ast.Call) and isinstance(k.value.func, ast.Attribute) and k.value.func.attr == "_child_node_kwargs" for k in c.keywords) for c in calls)
+    inherit_all = inherit_all and wi_ok
+
+    # 3. restrict only sets
+    rs = find_func(node, "restrict")
+    restrict_ors = False
+    for n in ast.walk(rs):
+        if isinstance(n, ast.Call) and isinstance(n.func, ast.Attribute) and n.func.attr == "update" and ast.unparse(n.func.value) == "self._self_flags" and len(n.args) == 1 and isinstance(n.args[0], ast.DictComp):
+            dc = n.args[0]
+            restrict_ors = isinstance(dc.value, ast.Constant) and dc.value.value is True and len(dc.generators[0].ifs) == 1
+    for n in ast.walk(rs):
+        if isinstance(n, (ast.Assign, ast.AugAssign)):
+            tg = n.targets[0] if isinstance(n, ast.Assign) else n.target
+            if ast.unparse(tg).startswith("self._self_flags"):
+                restrict_ors = False
+        if isinstance(n, ast.Call) and isinstance(n.func, ast.Attribute) and n.func.attr in ("pop", "clear", "__setitem__", "__delitem__") and ast.unparse(n.func.value) == "self._self_flags":
+            restrict_ors = False
+        if isinstance(n, ast.Delete):
+            restrict_ors = False
+
+    # 4. _guard_path refuses absolute paths under local_only
+    gp = find_func(node, "_guard_path")
+    abs_guard = False
+    for n in strip_doc(gp.body):
+        if isinstance(n, ast.If) and isinstance(n.test, ast.BoolOp) and isinstance(n.test.op, ast.And) and any(isinstance(x, ast.Raise) for x in n.body):
+            fl = [_acl_flag_of(v) for v in n.test.values]
+            cmp_ = [v for v in n.test.values if isinstance(v, ast.Compare)]
+            if "local_only" in fl and len(n.test.values) == 2 and cmp_ and ast.unparse(cmp_[0]) in ("path[0] == '/'", "path.startswith('/')"):
+                abs_guard = True
+
+    # 5. operation guards
+    op_guards = []
+    for name in ["__setitem__", "__delitem__", "create_group", "require_group", "create_dataset", "require_dataset", "move", "copy"]:
+        m = by.get(name)
+        op_guards.append((name, [".ro"] if (m and m["roGuard"]) else []))
+    for name in ["__setitem__", "__getitem__"]:
+        fn = find_func(dset, name)
+        gs = _guard_acl_calls(fn)
+        first_raw = next((i for i, st in enumerate(strip_doc(fn.body)) if any(_is_wrapped_attr(x, fn.args.args[0].arg) for x in ast.walk(st))), 10 ** 6)
+        op_guards.append(("dataset." + name, [_FLAG[f] for f, i, c in gs if c and i < first_raw and f in _FLAG]))
+    for name in ["parent", "file"]:
+        fn = find_func(node, name)
+        gs = _guard_acl_calls(fn)
+        # every guard here sits under `if self.acl[NodeAcl.local_only]` (the no-local-parent branch)
+        flags = []
+        for n in ast.walk(fn):
+            if isinstance(n, ast.If) and _acl_flag_of(n.test):
+                fl = _acl_flag_of(n.test)
+                for c in ast.walk(n):
+                    if isinstance(c, ast.Call) and isinstance(c.func, ast.Attribute) and c.func.attr == "_guard_acl" and c.args and isinstance(c.args[0], ast.Attribute) and c.args[0].attr == fl:
+                        if _FLAG[fl] not in flags:
+                            flags.append(_FLAG[fl])
+        op_guards.append((name, flags))
+    for name in ["__setitem__", "__delitem__", "__getitem__"]:
+        fn = find_func(wam, name)
+        flags = []
+        body = strip_doc(fn.body)
+        for i, st in enumerate(body):
+            if isinstance(st, ast.If) and _acl_flag_of(st.test) and any(isinstance(c, ast.Call) and isinstance(c.func, ast.Attribute) and c.func.attr == "_raise_illegal_op" for c in ast.walk(st)):
+                if all(not any(_is_wrapped_attr(x, "self") for x in ast.walk(b)) for b in body[:i]):
+                    flags.append(_FLAG[_acl_flag_of(st.test)])
+        op_guards.append(("attrs." + name, flags))
+    meta_guards = {}
+    for name in ["values", "items", "get", "__setitem__", "__delitem__"]:
+        fn = find_last_func(meta, name)
+        gs = _guard_acl_calls(fn, receiver_attr="_node")
+        meta_guards[name] = [_FLAG[f] for f, i, c in gs if c and i == 0 and f in _FLAG]
+    gi = find_last_func(meta, "__getitem__")
+    gi_src = ast.unparse(gi)
+    meta_guards["__getitem__"] = list(meta_guards["get"]) if "self.get(" in gi_src and "_objs" not in gi_src and "__wrapped__" not in gi_src else [
+        _FLAG[f] for f, i, c in _guard_acl_calls(gi, receiver_attr="_node") if c and i == 0]
+    for name in ["__setitem__", "__delitem__", "get", "__getitem__", "values", "items"]:
+        op_guards.append(("meta." + name, meta_guards[name]))
+
+    # 6. attrs property / whitelist
+    at = find_func(node, "attrs")
+    wrapped_for = []
+    for st in strip_doc(at.body):
+        if isinstance(st, ast.If) and any(isinstance(r, ast.Return) and isinstance(r.value, ast.Call) and isinstance(r.value.func, ast.Name) and r.value.func.id == "WrappedAttributeManager" for r in st.body):
+            vals = st.test.values if isinstance(st.test, ast.BoolOp) and isinstance(st.test.op, ast.Or) else [st.test]
+            wrapped_for = [_FLAG[_acl_flag_of(v)] for v in vals if _acl_flag_of(v) in _FLAG]
+    whitelist = []
+    for st in wam.body:
+        tgt = st.target if isinstance(st, ast.AnnAssign) else (st.targets[0] if isinstance(st, ast.Assign) else None)
+        if isinstance(tgt, ast.Name) and tgt.id == "_self_acl_whitelist" and isinstance(st.value, ast.Dict):
+            for k, v in zip(st.value.keys, st.value.values):
+                if isinstance(k, ast.Attribute) and k.attr in _FLAG and isinstance(v, (ast.Set, ast.List, ast.Tuple)):
+                    whitelist.append((_FLAG[k.attr], sorted(x.value for x in v.elts if isinstance(x, ast.Constant))))
+    # the whitelist is consulted by __getattr__ (raise when the name is not allowed)
+    ga = find_func(wam, "__getattr__")
+    ga_src = ast.unparse(ga)
+    if not ("_self_allowed" in ga_src and "_raise_illegal_op" in ga_src):
+        whitelist = []
+    # 7. a property that raises UnsupportedOperationError (an AttributeError) falls back to
+    #    __getattr__: MetadorDataset.__getattr__ must not forward names of wrapper attributes
+    dga = find_func(dset, "__getattr__")
+    dga_body = strip_doc(dga.body)
+    ds_refuses_own = False
+    for st in dga_body:
+        if isinstance(st, ast.If) and any(isinstance(x, ast.Raise) for x in st.body):
+            src = ast.unparse(st.test)
+            if "hasattr(type(self), key)" in src or "hasattr(self.__class__, key)" in src or "key in dir(type(self))" in src:
+                ds_refuses_own = True
+        if any(_is_wrapped_attr(x, "self") for x in ast.walk(st)) and isinstance(st, ast.Return):
+            break
+    return dict(wraps=wraps, childKwargsInheritAll=inherit_all, restrictOrs=restrict_ors, parentMode=parent_mode,
+                absGuardLocal=abs_guard, opGuards=op_guards, attrsWrappedFor=wrapped_for, attrWhitelist=whitelist,
+                datasetGetattrRefusesOwn=ds_refuses_own)
+
+
+def gen_acl_table():
+    t = acl_table()
+    b = lambda x: "true" if x else "false"  # noqa: E731
+    out = [
+        "import MetadorModel.Model.Acl",
+        "/-! GENERATED on every run by harness/translate.py from",
+        "    src/metador_core/container/wrappers.py and interface.py. Do not edit. -/",
+        "namespace MetadorModel.Gen",
+        "open MetadorModel.Acl",
+        "",
+        "def aclTable : AclTable where",
+        "  wraps := [%s]" % ", ".join('("%s", %s)' % (n, b(w)) for n, w in t["wraps"]),
+        "  childKwargsInheritAll := %s" % b(t["childKwargsInheritAll"]),
+        "  restrictOrs := %s" % b(t["restrictOrs"]),
+        "  parentMode := %s" % t["parentMode"],
+        "  absGuardLocal := %s" % b(t["absGuardLocal"]),
+        "  opGuards := [%s]" % ",\n    ".join('("%s", [%s])' % (n, ", ".join(fl)) for n, fl in t["opGuards"]),
+        "  attrsWrappedFor := [%s]" % ", ".join(t["attrsWrappedFor"]),
+        "  attrWhitelist := [%s]" % ", ".join("(%s, %s)" % (f, _ls(l)) for f, l in t["attrWhitelist"]),
+        "  propertyFallbackRefused := %s" % b(t["datasetGetattrRefusesOwn"]),
+        "",
+        "end MetadorModel.Gen",
+        "",
+    ]
+    return "\n".join(out)
+
+
+# --------------------------------------------------------------------------- marked-base loop
+def gen_metaclass():
+    """`PluginMetaclassMixin.__new__`: the loop over `bases` that refuses marked base classes,
+    as a recursive Lean function over the list of "is marked" flags."""
+    tree = parse_source("src/metador_core/plugin/metaclass.py")
+    cls = find_class(tree, "PluginMetaclassMixin")
+    fn = find_func(cls, "__new__")
+    args = [a.arg for a in fn.args.args]
+    if len(args) != 4:
+        raise TranslateError("__new__: expected (cls, name, bases, dct)")
+    bases_name = args[2]
+    loops = [n for n in strip_doc(fn.body) if isinstance(n, ast.For)]
+    loop = None
+    for n in loops:
+        if isinstance(n.iter, ast.Name) and n.iter.id == bases_name and isinstance(n.target, ast.Name):
+            loop = n
+            break
+    if loop is None:
+        raise TranslateError("no `for b in bases` loop in __new__")
+    # nothing before the loop may return/raise or rebind `bases`
+    for n in strip_doc(fn.body):
+        if n is loop:
+            break
+        for sub in ast.walk(n):
+            if isinstance(sub, (ast.Return, ast.Raise)) or (isinstance(sub, ast.Name) and sub.id == bases_name and isinstance(sub.ctx, ast.Store)):
+                raise TranslateError("statement before the base loop alters control flow or `bases`")
+    if loop.orelse:
+        raise TranslateError("for-else not supported")
+    var = loop.target.id
+
+    def test(e):
+        """-> 'm' or '!m' for `UndefVersion._is_marked(b)` / `not ...`"""
+        if isinstance(e, ast.UnaryOp) and isinstance(e.op, ast.Not):
+            t = test(e.operand)
+            return t[1:] if t.startswith("!") else "!" + t
+        if (isinstance(e, ast.Call) and isinstance(e.func, ast.Attribute) and e.func.attr == "_is_marked"
+                and isinstance(e.func.value, ast.Name) and e.func.value.id == "UndefVersion"
+                and len(e.args) == 1 and isinstance(e.args[0], ast.Name) and e.args[0].id == var):
+            return "m"
+        raise TranslateError("unsupported loop condition: %s" % ast.dump(e)[:100])
+
+    def flow(body):
+        """how a block ends: 'raise' | 'break' | 'continue' | None (falls through); inner
+        statements must not contain other control flow"""
+        last = body[-1]
+        for n in body[:-1]:
+            for sub in ast.walk(n):
+                if isinstance(sub, (ast.Raise, ast.Break, ast.Continue, ast.Return)):
+                    raise TranslateError("nested control flow in loop body")
+        if isinstance(last, ast.Raise):
+            return "raise"
+        if isinstance(last, ast.Break):
+            return "break"
+        if isinstance(last, ast.Continue):
+            return "continue"
+        for sub in ast.walk(last):
+            if isinstance(sub, (ast.Raise, ast.Break, ast.Continue, ast.Return)):
+                raise TranslateError("nested control flow in loop body")
+        return None
+
+    def seq(stmts):
+        if not stmts:
+            return "newRaises rest"
+        s0, rest = stmts[0], stmts[1:]
+        if isinstance(s0, ast.If):
+            t = test(s0.test)
+            fl = flow(s0.body)
+            if s0.orelse:
+                raise TranslateError("else branch in loop body")
+            k = seq(rest)
+            if fl is None:
+                return k
+            then = {"raise": "true", "break": "false", "continue": "newRaises rest"}[fl]
+            return "(if %s = true then %s else %s)" % (t, then, k)
+        if isinstance(s0, ast.Raise):
+            return "true"
+        if isinstance(s0, ast.Break):
+            return "false"
+        if isinstance(s0, ast.Continue):
+            return "newRaises rest"
+        for sub in ast.walk(s0):
+            if isinstance(sub, (ast.Raise, ast.Break, ast.Continue, ast.Return)):
+                raise TranslateError("nested control flow in loop body")
+        return seq(rest)
+
+    body = seq(loop.body)
+    return "\n".join([
+        "/-! GENERATED on every run by harness/translate.py from",
+        "    src/metador_core/plugin/metaclass.py (PluginMetaclassMixin.__new__, loop over bases). Do not edit. -/",
+        "namespace MetadorModel.Gen.Metaclass",
+        "",
+        "/-- does class creation raise, given for each base (in order) whether it is marked by `UndefVersion` -/",
+        "def newRaises : List Bool → Bool",
+        "  | [] => false",
+        "  | m :: rest => %s" % body,
+        "",
+        "end MetadorModel.Gen.Metaclass",
+        "",
+    ])
